@@ -14,6 +14,7 @@ import (
 	"strings"
 	"sync"
 	"time"
+	"unicode/utf8"
 
 	"google.golang.org/grpc"
 	"google.golang.org/grpc/codes"
@@ -628,11 +629,15 @@ func (m *Mux) serveGRPC(w http.ResponseWriter, r *http.Request) {
 		h.Set("Grpc-Message", encodeGrpcMessage(m))
 	}
 	if p := st.Proto(); p != nil && len(p.Details) > 0 {
-		stBytes, err := proto.Marshal(p)
-		if err != nil {
-			panic(err)
+		if !utf8.ValidString(p.Message) {
+			// grpc-message carries the bytes percent-encoded; the
+			// string field of the details needs valid UTF-8.
+			p.Message = strings.ToValidUTF8(p.Message, "\uFFFD")
 		}
-		h.Set("Grpc-Status-Details-Bin", encodeBinHeader(stBytes))
+		// A status that cannot be marshalled travels without details.
+		if stBytes, err := proto.Marshal(p); err == nil {
+			h.Set("Grpc-Status-Details-Bin", encodeBinHeader(stBytes))
+		}
 	}
 	setOutgoingTrailer(h, stream.trailer)
 
